@@ -137,6 +137,77 @@ static void dom_mix(int r, U64Vec *out) {
         }
     }
 }
+// AXIS(r): hexagons with two consecutive boundary vertices whose latitudes (or longitudes) are the IDENTICAL double: an edge that runs exactly
+// east-west (north-south) in floating point. Such ties exist only at the finest resolutions and only along curves; they are found by a
+// directed search: from a start cell walk along one lattice axis, bisect the sign change of (lat[k+1]-lat[k]) over a span of +-L cells, and
+// keep the straddling cells where the difference is exactly 0; repeated for many parallel lines. Inputs may be found with the library's own
+// local IJ functions; what is then checked on these cells is judged independently as for every other family.
+static int dom_axis_g(uint64_t h, int k, int useLng, double *g) {
+    CellBoundary cb;
+    if (cellToBoundary(h, &cb) || cb.numVerts != 6) return -1;
+    LatLng a = cb.verts[k], b = cb.verts[(k + 1) % 6];
+    *g = useLng ? b.lng - a.lng : b.lat - a.lat;
+    if (useLng && fabs(*g) > 1) return -1;  // antimeridian
+    return 0;
+}
+static int dom_axis_at(uint64_t s, CoordIJ o, int64_t t, int64_t u, int k, int useLng, uint64_t *h, double *g) {
+    CoordIJ ij = {(int)(o.i + t), (int)(o.j + u)};
+    if (localIjToCell(s, &ij, 0, h) || !spec_valid(*h)) return -1;
+    return dom_axis_g(*h, k, useLng, g);
+}
+// part/nparts: the start base cells are dealt round-robin to nparts searchers (workers)
+static void dom_axis(int r, int lines, int part, int nparts, U64Vec *out) {
+    if (r < 12) return;
+    int startno = 0;
+    int64_t L = r == 15 ? 300000 : r == 14 ? 120000 : r == 13 ? 45000 : 17000;
+    for (int bc = 1; bc < 122; bc += 5) {
+        if (spec_is_pent_bc(bc)) continue;
+        if (startno++ % nparts != part) continue;
+        int d0[15] = {0};
+        uint64_t s = spec_mk(r, bc, d0);
+        CoordIJ o;
+        if (cellToLocalIj(s, s, 0, &o)) continue;
+        for (int k = 0; k < 3; k++)
+            for (int useLng = 0; useLng < 2; useLng++) {
+                uint64_t h;
+                double glo, ghi;
+                if (dom_axis_at(s, o, -L, 0, k, useLng, &h, &glo) || dom_axis_at(s, o, L, 0, k, useLng, &h, &ghi)) continue;
+                if ((glo > 0) == (ghi > 0) && glo != 0 && ghi != 0) continue;  // no crossing along this line
+                for (int q = 0; q < lines; q++) {
+                    int64_t u = (int64_t)(q - lines / 2) * 3, lo = -L, hi = L;
+                    double a, b;
+                    if (dom_axis_at(s, o, lo, u, k, useLng, &h, &a) || dom_axis_at(s, o, hi, u, k, useLng, &h, &b)) continue;
+                    if ((a > 0) == (b > 0) && a != 0 && b != 0) continue;
+                    int fail = 0;
+                    while (hi - lo > 1 && !fail) {
+                        int64_t mid = (lo + hi) / 2;
+                        double m;
+                        // a cell whose boundary cannot be evaluated as a plain hexagon is stepped over (the cells at the crossing are all kept below)
+                        if (dom_axis_at(s, o, mid, u, k, useLng, &h, &m) && (mid + 1 >= hi || dom_axis_at(s, o, ++mid, u, k, useLng, &h, &m))) {
+                            fail = 1;
+                            break;
+                        }
+                        if (m == 0) {
+                            lo = mid - 1, hi = mid + 1;
+                            break;
+                        }
+                        if ((m > 0) == (a > 0))
+                            lo = mid;
+                        else
+                            hi = mid;
+                    }
+                    if (fail) continue;
+                    // keep every cell at the zero crossing (exact ties are among them; they cannot be told apart here without trusting the
+                    // boundary of exactly those cells)
+                    for (int64_t t = lo - 1; t <= hi + 1; t++) {
+                        CoordIJ ij = {(int)(o.i + t), (int)(o.j + u)};
+                        if (!localIjToCell(s, &ij, 0, &h) && spec_valid(h)) uv_push(out, h);
+                    }
+                }
+            }
+    }
+    uv_sortuniq(out);
+}
 // FINE(r): level 0 = whole family closed under one neighbour step; higher levels are thinned; all levels include POLAR(r,3) and MIX(r)
 //   level 1: RUN over pentagon base cells + every 5th, run lengths in steps of 2
 //   level 2: RUN over pentagon base cells + every 17th, run lengths in steps of 4, not closed
